@@ -30,6 +30,25 @@ CHECKS = {
         "excluded (C02). Nothing is claimed beyond the deviation bound or for scripts outside the menu/closure.",
         "DESIGN.md §4 C01",
     ),
+    "C03": (
+        "fault_enumeration",
+        "exhaustive single-byte alteration of every handshake message + exhaustive t-wise configuration enumeration on real endpoints, with an independent key-schedule as third opinion",
+        "Every byte of every handshake message (ClientHello .. Finished, both flights, with/without client "
+        "certificate request) is XORed with 3 masks in transit between a real tls.Context pair, and CH/SH "
+        "additionally inside re-sealed Initial packets between real QuicConnections: the receiver must never "
+        "complete. A certificate-defect menu x 5 key types x DNS/IP names, wrong-key CertificateVerify and "
+        "never-offered PSK (key-holding reftls adversary) must never let the client complete. Over a "
+        "10-dimensional configuration space (key type, cipher-suite lists, version lists, ALPN lists, "
+        "fresh/resumed/0-RTT, retry, client-cert request) every pair (quick) / triple (thorough) of option "
+        "values is enumerated on real connection pairs: when both complete, key logs agree with each other "
+        "and with reftls.derive_all_secrets over the wire transcript, and version/suite/ALPN/resumption "
+        "agree; with no common option nobody completes; 21 configurations additionally under every single "
+        "drop/duplicate/delay.",
+        "Pairwise (quick) / 3-wise + a rotating eighth of the full product (thorough), not the full product. "
+        "pyOpenSSL chain validation and `cryptography` primitives are trusted; verify_mode=CERT_NONE excluded. "
+        "A liveness guard (legal handshake must complete) is reported separately from the property's claims.",
+        "DESIGN.md §4 C03",
+    ),
     "C09": (
         "model_checking",
         "stateless deviation-bounded DFS over two real endpoints (NetSim) with a timer/termination monitor",
@@ -90,6 +109,37 @@ CHECKS = {
         "d<=1 everywhere, d<=2 on a subset; mds grid {1200,1201,1250,1350,1472,1500}^2 complete in thorough, a "
         "seed-selected ninth in quick. One known finding (unpadded server Initial when budget-limited).",
         "DESIGN.md §4 C13",
+    ),
+    "C17": (
+        "exploration",
+        "exhaustive enumeration of finite value/byte-string grammars against an independent codec (refcodec)",
+        "Integers at every encoding boundary, all 65,536 two-byte strings through pull_uint_var, all 1023 ACK "
+        "range sets over {0..9} x bases x delays, all 441 CID-length pairs x token lengths x packet types x "
+        "versions, Retry/Version Negotiation, transport-parameter singletons/pairs(/triples) at varint "
+        "boundaries, the 8 TLS messages with every optional-extension subset: push(v) must equal the "
+        "independent encoder byte for byte and pull(push(v)) == v; for every length field lied about "
+        "({0,1,true-1,true+1,max}) and every prefix, decoding must raise the documented error or yield a "
+        "re-encodable value, and a strict nested-length reference decoder flags reads past an enclosing "
+        "declared length. The property is about all inputs of wire codecs; boundary-complete finite grammars "
+        "enumerated exhaustively are the model-checking reading of it.",
+        "Random 62/64-bit values and random bodies are not covered (sampling). Out-of-domain integers "
+        "(push_uint8(256)) are recorded, not judged. `cryptography` AES-GCM is trusted for the Retry tag.",
+        "DESIGN.md §4 C17",
+    ),
+    "C19": (
+        "model_checking",
+        "stateless deviation-bounded DFS over the real asyncio adapter on a virtual event loop (select() is the choice point)",
+        "QuicServer and one or two QuicConnectionProtocol clients run on VLoop, an asyncio.BaseEventLoop whose "
+        "real _run_once scheduling is kept and whose select() is the single choice point (deliver oldest "
+        "datagram / another / drop / duplicate / let the timeout elapse / burst / spoofed replay). 26-30 "
+        "scenarios (echo over 1-2 streams, parallel pings, wait_connected twice, close from either side at "
+        "each await point, idle timeout, CID change, key update, retry on/off, two clients, write before "
+        "connected); every schedule with <= d deviations is executed on fresh objects. Oracle: reader bytes == "
+        "writer bytes + EOF, every waiter finishes exactly once, routing table maps every issued unretired CID "
+        "and nothing after termination, retry tokens bound to the source address, no exception in callbacks.",
+        "d<=1 on 21 scenarios and d<=2 on 5 (quick); d<=2 on 24 and d<=3 on 5 (thorough). Timers firing late "
+        "are not explored; a nanosecond stutter guard models a real loop's progress on a frozen clock.",
+        "DESIGN.md §4 C19",
     ),
     "C10": (
         "model_checking",
